@@ -17,6 +17,12 @@ CLAIMS["C17"] = ("closed-world ownership of jwx verification primitives + must-p
 CLAIMS["C02"] = ("must-pass-through on the two token flows and the code-minting handler (per-presentation loops), argument provenance, ownership of token/code stores, reserved-claim table vs response struct tags",
   "Static decision that access tokens and authorization codes are issued only after every listed presentation/PKCE/nonce check passed, from request/session-bound arguments, and that introspection is built from the stored token with credential-derived claims unable to override named fields. Exhaustive over the current source; necessary structural conditions.",
   "Trusts go/ssa; verifier and PEX semantics are C01/C12; single-use atomicity is C05.")
+CLAIMS["C10"] = ("DETERM: map-iteration-order dataflow (append sinks must be sorted before escaping; folds/callbacks/first-match flagged) over the didstore package + total-order and sticky-deactivation argument checks",
+  "Static decision of the determinism clause the property names: no Go map iteration order reaches an ordered result in the did:nuts store, the event order has a unique tie-break, the ordered list has one writer, deactivation is sticky. Exhaustive over the current source.",
+  "Trusts go/ssa; the order-independence law of the event algebra over all arrival orders is not decided (runtime values).")
+CLAIMS["C05"] = ("ATOMIC: check-then-act pair detection with lock-held analysis on single-use stores + ownership of plain reads + deferred-burn dominance + must-reach of the burning handler",
+  "Static decision that single-use values are consumed only through the burn primitive, that a failed redemption burns the code, that nonce registrations keep the store's TTL, and that each check-then-act is atomic. The atomicity clause fails on today's tree at three sites, recorded as known findings; a new non-atomic pair is still reported.",
+  "Trusts go/ssa; assumes the session backends give no cross-operation isolation (true for all three implementations).")
 PENDING = {}
 
 def main():
